@@ -59,7 +59,7 @@ func (m *vhMeta) Dump(string) error { return nil }
 var vhFID = []string{"f0f0f0f0aa", "f1f1f1f1bb", "f2f2f2f2cc"}
 var vhFPub = []string{"pub-f0", "pub-f1", "pub-f2"}
 var vhFCert = []string{"cert-f0", "cert-f1", "cert-f2"}
-var vhForged = []string{"eeeeeeee01", "eeeeeeee02"}
+var vhForged = []string{"eeeeeeee01", "eeeeeeee02", "F0F0F0F0AA"} // the last one is functionary 0's id in upper case
 
 func vhFKey(i int) Key {
 	return Key{KeyID: vhFID[i], KeyType: "ed25519", Scheme: "ed25519", KeyVal: KeyVal{Public: vhFPub[i]}}
@@ -133,7 +133,7 @@ func vhC02Build(a []int) *vhC02 {
 		nsigs := a[1+l]
 		for j := 0; j < nsigs; j++ {
 			m.sigs = append(m.sigs, Signature{
-				KeyID:       vPick("sig.keyid", vhFID[0], vhFID[1], vhFID[2], vhForged[0], vhForged[1]),
+				KeyID:       vPick("sig.keyid", vhFID[0], vhFID[1], vhFID[2], vhForged[0], vhForged[1], vhForged[2]),
 				Sig:         "00",
 				Certificate: vPick("sig.cert", "", vhFCert[0], vhFCert[1], vhFCert[2]),
 			})
